@@ -247,7 +247,16 @@ def gen_accuracy_case(rng):
     ndim = rng.choice([2, 2, 3])
     fitfun = rng.choice(["gauss", "ring", "disc"])
     dimer = rng.random() < 0.5
-    return dict(stream="accuracy", ndim=ndim, fitfun=fitfun, dimer=dimer, seed=rng.randint(0, 10 ** 9))
+    inp = dict(stream="accuracy", ndim=ndim, fitfun=fitfun, dimer=dimer, seed=rng.randint(0, 10 ** 9))
+    # a SEQUENCE of frames in which the features move, and parameter modes other than the default
+    # (shared over all frames / held constant): the clause speaks of "images drawn from the model"
+    # and quantifies over parameter modes
+    if rng.random() < 0.5:
+        inp["nframes"] = rng.choice([2, 3]) if ndim == 2 else 2
+    inp["pm"] = rng.choice([None, None, {"size": "global"}, {"signal": "global"},
+                            {"background": "const"}, {"size": "cluster"},
+                            {"signal": "global", "size": "global"}])
+    return inp
 
 
 # ---- scenes of the frames / history streams ---------------------------------------------------
@@ -1067,22 +1076,39 @@ def run_accuracy(ctx, inp, res):
         v /= np.linalg.norm(v)
         centres.append(c0 + v * size * {"gauss": 2.5, "ring": 2.2, "disc": 2.5}[fitfun])
     extra = {"gauss": [], "ring": [0.2], "disc": [0.5]}[fitfun]
-    im = draw(ls, shape, centres, fitfun, size, 200.0, extra, 0.0)
-    rows = []
-    for c in centres:
-        v = rng.randn(ndim)
-        v /= np.linalg.norm(v)
-        rows.append(c + 1.5 * v)
+    nfr = int(inp.get("nframes") or 1)
+    pm = inp.get("pm")
     cols = ["z", "y", "x"][-ndim:]
-    f = pd.DataFrame(rows, columns=cols)
+    base = [np.array(c) for c in centres]
+    step = rng.uniform(2.0, 4.0, size=ndim) * rng.choice([-1, 1], size=ndim)
+    if ndim == 3:
+        step *= 0.5
+    images, rows, truth = [], [], []
+    for k in range(nfr):
+        cs = [c + k * step for c in base]
+        images.append(draw(ls, shape, cs, fitfun, size, 200.0, extra, 0.0))
+        for c in cs:
+            v = rng.randn(ndim)
+            v /= np.linalg.norm(v)
+            rows.append(list(c + 1.5 * v) + [k])
+            truth.append(c)
+    centres = truth
+    f = pd.DataFrame(rows, columns=cols + ["frame"])
+    f["frame"] = f["frame"].astype(int)
+    if nfr == 1 and inp["seed"] % 2 == 0:
+        f = f.drop(columns=["frame"])
     f["signal"] = 180.0
     f["size"] = size
+    reader = images[0] if nfr == 1 else Frames(images)
+    kw = {} if pm is None else dict(param_mode=dict(pm))
     res.stat("accuracy_cases")
     res.stat("accuracy_%s_%dd_%s" % (fitfun, ndim, "dimer" if dimer else "single"))
+    res.stat("accuracy_frames_%d" % nfr)
+    res.stat("accuracy_pm_" + ("default" if pm is None else "+".join("%s=%s" % kv for kv in sorted(pm.items()))))
     try:
         with warnings.catch_warnings():
             warnings.simplefilter("ignore")
-            r = ls.refine_leastsq(f, im, diameter, fit_function=fitfun)
+            r = ls.refine_leastsq(f, reader, diameter, fit_function=fitfun, **kw)
     except Exception as e:
         res.violation("property-violation", "refine_leastsq raised %s: %s" % (type(e).__name__, e),
                       signature=dict(stream="accuracy", what="raises", error=type(e).__name__))
@@ -1093,8 +1119,10 @@ def run_accuracy(ctx, inp, res):
     res.stat("accuracy_err_below_1e-3" if err.max() < 1e-3 else "accuracy_err_above_1e-3")
     if not good:
         res.violation("property-violation",
-                      "noise-free %s image (%d-D, %s), starts 1.5 px off: centre error %r px, cost %r"
-                      % (fitfun, ndim, "dimer" if dimer else "single", err.tolist(), r["cost"].tolist()),
+                      "noise-free %s image (%d-D, %s, %d frame(s), param_mode %s), starts 1.5 px off: "
+                      "centre error %r px, cost %r"
+                      % (fitfun, ndim, "dimer" if dimer else "single", nfr, pm, err.tolist(),
+                         r["cost"].tolist()),
                       impl=dict(err=err.tolist()), signature=dict(stream="accuracy", what="not-recovered",
                                                                    fit_function=fitfun))
     res.sample = dict(stream="accuracy", fitfun=fitfun, ndim=ndim, dimer=dimer, max_err=float(err.max()))
